@@ -72,16 +72,16 @@ def L : Nat := 256 ^ 127
 
 /-- success of the encoder: the output is the serialisation of a well-formed CST that mirrors the tree -/
 theorem encodeItems_ok (si : Bool) : ∀ (kvs : List (PyStr × PyVal)) (b : Bytes),
-    encodeItems si kvs = .ok b → b.length < L →
+    encodeItems si kvs = .ok b → (si = false → b.length < L) →
       ∃ items, b = printItems items ∧ Mirror si kvs items ∧ ∀ i ∈ items, WF si i := by
   intro kvs
   apply encodeItems.induct si
-    (motive_1 := fun tagS c v => ∀ value, encodeValue si tagS c v = .ok value → value.length < L →
+    (motive_1 := fun tagS c v => ∀ value, encodeValue si tagS c v = .ok value → (si = false → value.length < L) →
       (c = true → ∃ kvs kids, v = .dict kvs ∧ value = printItems kids ∧ Mirror si kvs kids ∧ ∀ i ∈ kids, WF si i) ∧
       (c = false → (v = .bytes value) ∨ (∃ s, v = .str s ∧ bytesFromHex s = .ok value)))
-    (motive_2 := fun kvs => ∀ b, encodeItems si kvs = .ok b → b.length < L →
+    (motive_2 := fun kvs => ∀ b, encodeItems si kvs = .ok b → (si = false → b.length < L) →
       ∃ items, b = printItems items ∧ Mirror si kvs items ∧ ∀ i ∈ items, WF si i)
-    (motive_3 := fun kv => ∀ b, encodeItem si kv = .ok b → b.length < L →
+    (motive_3 := fun kv => ∀ b, encodeItem si kv = .ok b → (si = false → b.length < L) →
       ∀ rest more, Mirror si rest more → (∀ i ∈ more, WF si i) →
         ∃ item, b = printItems [item] ∧ Mirror si (kv :: rest) (item :: more) ∧ WF si item)
   -- 1: dict under a constructed tag
@@ -121,8 +121,8 @@ theorem encodeItems_ok (si : Bool) : ∀ (kvs : List (PyStr × PyVal)) (b : Byte
     simp only [encodeItems, hv, hv', Except.ok.injEq] at hb
     subst hb
     simp only [List.length_append] at hlen
-    obtain ⟨more, e2, m2, w2⟩ := ih2 value' hv' (by omega)
-    obtain ⟨item, e3, m3, w3⟩ := ih3 value hv (by omega) rest more m2 w2
+    obtain ⟨more, e2, m2, w2⟩ := ih2 value' hv' (fun h => by have := hlen h; omega)
+    obtain ⟨item, e3, m3, w3⟩ := ih3 value hv (fun h => by have := hlen h; omega) rest more m2 w2
     refine ⟨item :: more, ?_, m3, ?_⟩
     · rw [printItems_cons, ← e3, ← e2]
     · intro i hi; rcases List.mem_cons.mp hi with rfl | h
@@ -144,7 +144,7 @@ theorem encodeItems_ok (si : Bool) : ∀ (kvs : List (PyStr × PyVal)) (b : Byte
       simp [tagOfName, ht, hn, this]
     have hvt := (tagOfName_valid htag).2
     simp only [List.length_append] at hlen
-    have hvl : value.length < L := by omega
+    have hvl : si = false → value.length < L := fun h => by have := hlen h; omega
     have hlv := lenField_valid si value.length l hvl hlf
     have hcan := lenField_canonical si value.length l hvl hlf
     obtain ⟨hT, hF⟩ := ih1 value hv hvl
